@@ -126,7 +126,12 @@ func drawReferrer(rt *rapid.T, remoteMode bool) Referrer {
 		case "layer-digest":
 			layer.set("digest", jstr(rp.Pick(rt, "digest", hostileDigests...)))
 		case "layer-mediatype":
-			layer.set("mediaType", jstr(rp.Pick(rt, "layerMT", "", "text/plain", otherFormat(format), strings.Repeat("t", 10000), "application/jose+json; charset=utf-8")))
+			layer.set("mediaType", jstr(rp.Pick(rt, "layerMT", "", "text/plain", otherFormat(format), strings.Repeat("t", 10000), "application/jose+json; charset=utf-8", ocispec.MediaTypeImageManifest, ocispec.MediaTypeImageIndex)))
+			if mt := layer.get("mediaType").s; mt == ocispec.MediaTypeImageManifest || mt == ocispec.MediaTypeImageIndex {
+				// a manifest-typed layer is followed by the store: keep its declared size survivable (see "oversized")
+				layer.set("size", jnum(rp.Pick(rt, "manifestLayerSize", fmt.Sprint(len(blob)), "1073741824", "0", "-1")))
+				op += "=manifest-typed"
+			}
 		case "config":
 			m.set("config", rp.Pick(rt, "config", jobj(), jobj(jm{"mediaType", jstr("application/vnd.oci.image.config.v1+json")}, jm{"digest", jstr(emptyJSONDigest)}, jm{"size", jnum("2")}),
 				jobj(jm{"mediaType", jstr(mtNotation)}, jm{"digest", jstr("md5:abcd")}, jm{"size", jnum("2")}), jobj(jm{"mediaType", jstr(mtNotation)}, jm{"digest", jstr(digest.FromString("absent config").String())}, jm{"size", jnum("-5")}),
@@ -136,7 +141,15 @@ func drawReferrer(rt *rapid.T, remoteMode bool) Referrer {
 			}
 		case "subject":
 			s := subjectJSON()
-			switch rp.Pick(rt, "subjectKind", "own-layer", "size+1", "other-mediatype", "absent", "hostile-digest", "valid-signature-blob", "with-annotations") {
+			switch rp.Pick(rt, "subjectKind", "own-layer", "size+1", "other-mediatype", "absent", "hostile-digest", "valid-signature-blob", "with-annotations", "oversized", "oversized") {
+			case "oversized":
+				// An existing manifest announced with a huge size. The store follows manifest-typed
+				// successors when it indexes a layout, so this size reaches its reader. 1 and 2 GiB are
+				// beyond the runaway threshold yet survivable for this process; terabyte sizes are never
+				// put on a manifest-typed descriptor (an honest out-of-memory kill would take the shard
+				// down instead of producing a finding).
+				s.set("size", jnum(rp.Pick(rt, "oversize", "1073741824", "2147483648", "600000000")))
+				op += "=oversized"
 			case "own-layer": // the closest a content-addressed manifest gets to pointing at itself
 				s = layer.clone()
 			case "size+1":
@@ -682,14 +695,14 @@ func TestC12_HostileLayout(t *testing.T) {
 		}
 		return
 	}
-	rp.Check(t, 320, 8000, func(rt *rapid.T) {
+	rp.Check(t, 320, 8000, property(func(rt *rapid.T) {
 		c := drawLayoutCase(rt, "layout")
 		c.Inject = rapid.IntRange(0, 2).Draw(rt, "inject") == 0
 		for i, n := 0, rapid.IntRange(0, 2).Draw(rt, "handEdits"); i < n; i++ {
 			c.Edits = append(c.Edits, drawHandEdit(rt, c))
 		}
 		runLayoutCase(rt, rec, c)
-	})
+	}))
 }
 
 func TestC12_HostileRegistry(t *testing.T) {
@@ -698,7 +711,7 @@ func TestC12_HostileRegistry(t *testing.T) {
 	if rp.ReplayCase(&rc) {
 		return // replayed by TestC12_HostileLayout
 	}
-	rp.Check(t, 320, 8000, func(rt *rapid.T) {
+	rp.Check(t, 320, 8000, property(func(rt *rapid.T) {
 		c := drawLayoutCase(rt, "remote")
 		c.TagSchema = rapid.IntRange(0, 4).Draw(rt, "tagSchema") == 0
 		c.NoDigestH = rapid.Bool().Draw(rt, "noDigestHeader")
@@ -711,5 +724,5 @@ func TestC12_HostileRegistry(t *testing.T) {
 			c.IndexJSON = idx.bytes()
 		}
 		runLayoutCase(rt, rec, c)
-	})
+	}))
 }
